@@ -15,7 +15,7 @@ from sa.ctx import Ctx, short, stmt_key
 from sa.cfg import NORMAL, describe_path
 from sa.report import Report
 from sa.sides import SideAnalysis, show
-from sa.util import cfg_root, node_has_call, has_fact
+from sa.util import cfg_root, node_has_call, has_fact, fact_in, local_assigned_from
 from sa import pat
 
 
@@ -67,27 +67,32 @@ class C05:
         rep.check("C05.V2", "resolver|others-fall-back", sc, exc is True, "other exceptions fall back", "a failing resolver aborts the sync step instead of falling back to remote-wins")
         # V4 / V5
         rep.rule("C05.V4", "malformed answers (not a tuple, wrong length, first element not file-like) become None; None falls back to the REMOTE handle with keep=True", expect_min=2)
-        nones = [n for n in ctx.own_nodes(sc) if isinstance(n, ast.Assign) and isinstance(n.targets[0], ast.Name) and n.targets[0].id == "ret" and isinstance(n.value, ast.Constant) and n.value.value is None]
+        ret = local_assigned_from(ctx, sc, "self._resolve_conflict($$$)")
+        fhs = sc.params()[1]
+        if ret is None:
+            raise AnalysisError("__safe_call_resolver: the resolver's answer is not bound to a single local")
+        nones = [n for n in ctx.own_nodes(sc) if isinstance(n, ast.Assign) and isinstance(n.targets[0], ast.Name) and n.targets[0].id == ret and isinstance(n.value, ast.Constant) and n.value.value is None
+                 and ctx.facts_at(sc, n)]
         kinds = set()
         for n in nones:
             for (txt, pol) in ctx.facts_at(sc, n):
-                if "isinstance(ret, tuple)" in txt and not pol:
+                if "isinstance(%s, tuple)" % ret in txt and not pol:
                     kinds.add("not-tuple")
-                if "len(ret)" in txt:
+                if "len(%s)" % ret in txt:
                     kinds.add("bad-length")
-                if "is_file_like" in txt and not pol:
+                if "(%s[0])" % ret in txt and not pol:
                     kinds.add("not-file-like")
         rep.check("C05.V4", "resolver|malformed", sc, kinds == {"not-tuple", "bad-length", "not-file-like"}, "three malformed-answer arms -> None", "malformed-answer arms present: %s" % sorted(kinds))
-        fb = [n for n in ctx.own_nodes(sc) if isinstance(n, ast.Assign) and isinstance(n.targets[0], ast.Name) and n.targets[0].id == "ret" and isinstance(n.value, ast.Tuple)]
+        fb = [n for n in ctx.own_nodes(sc) if isinstance(n, ast.Assign) and isinstance(n.targets[0], ast.Name) and n.targets[0].id == ret and isinstance(n.value, ast.Tuple)]
         good = bool(fb)
         for n in fb:
             facts = ctx.facts_at(sc, n)
             elts = n.value.elts
             keep_true = len(elts) == 2 and isinstance(elts[1], ast.Constant) and elts[1].value is True
-            m = pat.match("fhs[$I]", elts[0]) if len(elts) == 2 else None
+            m = pat.match("%s[$I]" % fhs, elts[0]) if len(elts) == 2 else None
             idx = m["I"].value if m and isinstance(m["I"], ast.Constant) else None
-            remote = ("fhs[0].side == REMOTE", idx == 0) in facts
-            good = good and keep_true and remote and ("ret is None", True) in facts
+            remote = fact_in(facts, "%s[0].side == REMOTE" % fhs, idx == 0)
+            good = good and keep_true and remote and fact_in(facts, "%s is None" % ret, True)
         rep.check("C05.V4", "resolver|fallback", sc, good, "ret is None -> (REMOTE handle, keep=True)", "the fallback is no longer 'remote wins, loser kept'")
         # V6 / V7
         rep.rule("C05.V6", "identical content is merged silently: in handle_split_conflict the resolver is unreachable from the equal-hash arm; sync() "
@@ -104,7 +109,7 @@ class C05:
                   witness=describe_path(pth) if pth else None)
         s = p.func("SyncManager.sync")
         calls = ctx.calls(s, "handle_hash_conflict")
-        ok = bool(calls) and all(("%s.hash_conflict()" % s.params()[1], True) in ctx.facts_at(s, c) for c in calls)
+        ok = bool(calls) and all(fact_in(ctx.facts_at(s, c), "%s.hash_conflict()" % s.params()[1], True) for c in calls)
         rep.check("C05.V6", "sync|hash_conflict", s, ok, "conflict handling only under hash_conflict()", "conflict handling is entered without a hash conflict")
         # V8
         rep.rule("C05.V8", "each ResolveFile handle is built with the provider of its side state's own side", expect_min=1)
@@ -124,12 +129,14 @@ class C05:
         rep.rule("C05.V9", "in resolve_conflict the losing handle (fh is not rfh) is overwritten by upload when keep is false and renamed away when keep is true", expect_min=2)
         ups = [n for n in ctx.own_nodes(rc) if isinstance(n, ast.Call) and pat.match("self.providers[$L.side].upload($L.oid, $$$)", n) is not None]
         rns = ctx.calls(rc, "_resolve_rename")
-        ok = bool(ups) and all(("keep", False) in ctx.facts_at(rc, u) and ("fh is rfh", False) in ctx.facts_at(rc, u) for u in ups)
+        keep = local_assigned_from(ctx, rc, "self.__safe_call_resolver($$$)", 1) or "?"
+        fh = local_assigned_from(ctx, rc, "self.__safe_call_resolver($$$)", 0) or "?"
+        ok = bool(ups) and all(fact_in(ctx.facts_at(rc, u), keep, False) and has_fact(ctx.facts_at(rc, u), "%s is $R" % fh, False) for u in ups)
         rep.check("C05.V9", "resolve_conflict|upload", rc, ok, "upload over the loser under not keep", "the loser is overwritten under the wrong condition (facts %s)" % [sorted(ctx.facts_at(rc, u)) for u in ups])
-        ok = bool(rns) and all(("keep", True) in ctx.facts_at(rc, r) and ("fh is rfh", False) in ctx.facts_at(rc, r) for r in rns)
+        ok = bool(rns) and all(fact_in(ctx.facts_at(rc, r), keep, True) and has_fact(ctx.facts_at(rc, r), "%s is $R" % fh, False) for r in rns)
         rep.check("C05.V9", "resolve_conflict|rename", rc, ok, "rename the loser under keep", "the loser is renamed under the wrong condition (facts %s)" % [sorted(ctx.facts_at(rc, r)) for r in rns])
         # the uploaded bytes are the winner's
-        ok = bool(ups) and all(any(isinstance(x, ast.Name) and x.id == "fh" for a in u.args[1:] for x in ast.walk(a)) for u in ups)
+        ok = bool(ups) and all(any(isinstance(x, ast.Name) and x.id == fh for a in u.args[1:] for x in ast.walk(a)) for u in ups)
         rep.check("C05.V9", "resolve_conflict|winner-bytes", rc, ok, "the winner handle is what gets uploaded", "the upload over the loser does not send the winning handle", nontrivial=False)
 
 
